@@ -350,9 +350,11 @@ def c12(tier):
 SIG = {'call0': [], 'call1': ['int'], 'call2': ['int'] * 2, 'call3': ['int'] * 3, 'mcall': ['obj', 'int', 'int'], 'op': ['int', 'int'], 'cmp': ['int', 'int'],
        'obj0': ['par'], 'obj1': ['par', 'int'], 'obj2': ['par', 'int', 'int'], 'obj3': ['par', 'int', 'int', 'int'],
        'arrs': ['size'], 'arrc0': ['size0', 'int'], 'arrc1': ['size1', 'int'], 'arrc2': ['size2', 'int'], 'arrc3': ['size3', 'int'],
-       'index': ['arr', 'idx'], 'setindex': ['arr', 'idx', 'int'], 'getfield': ['obj'], 'setfield': ['obj', 'int'], 'if': ['bool', 'int', 'int'],
+       'index': ['arr', 'idx'], 'setindex': ['arr', 'idx', 'int'], 'oindex': ['obj', 'idx'], 'osetindex': ['obj', 'idx', 'int'], 'getfield': ['obj'], 'setfield': ['obj', 'int'], 'if': ['bool', 'int', 'int'],
        'print0': [], 'print1': ['int'], 'print2': ['int'] * 2, 'print3': ['int'] * 3, 'while0': [], 'while1': [], 'while2': [], 'let': ['int'], 'assign': ['int']}
 METHOD_M = lambda: Fun('m', ['a', 'b'], Blk([Pr('m;'), Op('-', V('a'), V('b'))]))
+# objects used as indexable receivers: get / set announce the arguments they were entered with
+METHODS_GS = lambda: [Fun('get', ['i'], Blk([Pr('get ~;', [V('i')]), Op('+', V('i'), I(40))])), Fun('set', ['i', 'v'], Blk([Pr('set ~ ~;', [V('i'), V('v')]), Op('-', V('v'), V('i'))]))]
 
 
 def evalorder_ast(shape):
@@ -368,7 +370,7 @@ def evalorder_ast(shape):
         elif kind == 'arr':
             v = Arr(I(2), I(0))
         elif kind == 'obj':
-            v = Obj(N(), [Let('f', I(1)), METHOD_M()])
+            v = Obj(N(), [Let('f', I(1)), METHOD_M()] + METHODS_GS())
         elif kind == 'par':
             v = N()
         elif kind.startswith('size'):
@@ -397,14 +399,16 @@ def evalorder_ast(shape):
         if c == 'cmp':
             return Op('<=', a[0], a[1])
         if c.startswith('obj'):
-            return Obj(a[0], [Let('f', I(1))] + [Let('g%d' % i, x) for i, x in enumerate(a[1:])] + [METHOD_M()])
+            fields = [Let('f', I(1))] + [Let('g%d' % i, x) for i, x in enumerate(a[1:])]
+            methods = [METHOD_M()] + METHODS_GS()
+            return Obj(a[0], methods + fields if len(a) in (1, 3) else fields + methods)      # a field or a method as the last member
         if c == 'arrs':
             return Arr(a[0], I(7))
         if c.startswith('arrc'):
             return Arr(a[0], a[1])
-        if c == 'index':
+        if c in ('index', 'oindex'):
             return Ix(a[0], a[1])
-        if c == 'setindex':
+        if c in ('setindex', 'osetindex'):
             return SIx(a[0], a[1], a[2])
         if c == 'getfield':
             return GF(a[0], 'f')
@@ -455,7 +459,7 @@ COUNT_PROBES = [
 def c13(tier):
     chk = Check('C13', tier)
     chk.rule = ('TLC enumerates all typed expression shapes to depth 2 (MC_EvalOrder: calls with 0-3 arguments, method call, operators, object with parent and 0-3 fields, '
-                'array(size, constant), array(size 0-3, compound), index, indexed and field assignment, if, while with 0-2 iterations, print 0-3, let, assign); every operand '
+                'array(size, constant), array(size 0-3, compound), index, indexed and field assignment, both also on an object whose get / set announce the arguments they receive, if, while with 0-2 iterations, print 0-3, let, assign); every operand '
                 'position holds a numbered marker begin print("k;"); v end or a nested shape; the printed marker sequence (order and multiplicity) prescribed by FMLSource, '
                 'run by TLC, must equal what the real pipeline prints. Quick: all shapes with at most one nested operand + a 1/24 stride of the rest; thorough: all. distinct_nontrivial = distinct shapes judged.')
     exe = build('debug')
@@ -637,7 +641,7 @@ def c14(tier):
     if tier != 'thorough':
         small = [d for d in ds if d[0] != 'dispatch' or len(d) <= 4]
         deep = [d for d in ds if d[0] == 'dispatch' and len(d) > 4]
-        ds = small + deep[(seed() % 40)::40]
+        ds = small + deep[(seed() % 80)::80]
     progs = []
     for d in ds:
         ast = {'dispatch': dispatch_ast, 'alias': alias_ast, 'value': value_ast}[d[0]](d)
